@@ -247,6 +247,20 @@ func acquire(try func() bool, site string, m any) {
 	}
 }
 
+var pointsOn bool
+
+// EnablePoints turns the delivery points (Point) into scheduling points for the threads spawned from now on.
+func EnablePoints(on bool) { pointsOn = on }
+
+// Point is placed before a delivery to another connection (p.Responder.SendMsg): when enabled, a scheduler thread
+// yields there like at a lock acquisition that always succeeds.
+func Point(site string) {
+	if !pointsOn || current() == nil {
+		return
+	}
+	acquire(func() bool { return true }, "pt:"+site, nil)
+}
+
 // Acquire replaces x.Lock(): try is x.TryLock, m is &x.
 func Acquire(try func() bool, site string, m any) { acquire(try, site, m) }
 
